@@ -98,6 +98,9 @@ func (w *World) Run(x *simkit.Ctx) {
 	txper := x.CfgInt("txper", func(r *simkit.Rng) int { return r.Range(1, 8) })
 	nval := x.CfgInt("validators", func(r *simkit.Rng) int { return r.Range(1, 2) })
 	vault := x.CfgInt("vault", func(r *simkit.Rng) int { return r.Pick(1, 2) })
+	// governance-focused runs: equal stakes and parameter votes on one issue in two written forms,
+	// so that tallies tie and the ranking's tie-break meets candidates of every length
+	govfocus := x.CfgInt("govfocus", func(r *simkit.Rng) int { return r.Pick(4, 1) }) == 1
 	sched := x.CfgInt("sched", func(r *simkit.Rng) int { return int(r.U64() >> 33) })
 	reexec := x.CfgInt("reexec", func(r *simkit.Rng) int {
 		if x.Case.Tier == "thorough" {
@@ -178,7 +181,18 @@ func (w *World) Run(x *simkit.Ctx) {
 			s = fmt.Sprintf("%d", r.Intn(1<<20))
 		}
 		e.valSeq++
-		return &simkit.Step{Op: "tx", K: []int{from, to, kind, nd}, V: int64(1 + r.Intn(5000)), S: s, C: int(e.valSeq)}
+		v := int64(1 + r.Intn(5000))
+		if govfocus && !(byz && (kind == kGovPayload || kind == kRawFields)) && r.Chance(2, 3) {
+			kind = []int{kStake, kVoteDAO, kVoteDAO, kVoteBP, kUnstake}[r.Intn(5)]
+			s = ""
+			switch kind {
+			case kStake:
+				v = int64(2 * (1 + r.Intn(3))) // 2,4,6: exactly the minimum
+			case kVoteDAO:
+				v = int64(4*r.Intn(2) + 8*r.Pick(2, 2, 1, 1)) // BPCOUNT, either value, plain / 39 / 40 characters / '+'
+			}
+		}
+		return &simkit.Step{Op: "tx", K: []int{from, to, kind, nd}, V: v, S: s, C: int(e.valSeq)}
 	}
 
 	for {
